@@ -2,7 +2,7 @@ SPECIFICATION Spec
 CONSTANTS
   MaxTok = 4
   NTok = 15
-  NBase = 3
+  NBase = 4
   EmitB = TRUE
 INVARIANTS Terminates ResultOk AgreesWithRun EmitBehaviour
 PROPERTY PointerMonotone
